@@ -118,6 +118,7 @@ type Exec struct {
 	durable    []Value
 	stubs      map[string]int
 	printed    []string
+	notes      []Value
 	canary     bool
 	clock      int64
 	witness    map[string]string
@@ -918,6 +919,7 @@ type PathResult struct {
 	Stubs      map[string]int
 	Inputs     []string
 	Witness    map[string]string
+	Notes      []string
 	PCSize     int
 }
 
@@ -943,6 +945,9 @@ func (in *Interp) runPath(cfg Config, solver *smt.Solver, fn *ssa.Function, args
 	if wantWitness && (ex.outcome == OutOK) && len(ex.inputs) > 0 {
 		if r, m := solver.CheckModel(); r == smt.Sat {
 			res.Witness = modelToStrings(m)
+			for _, n := range ex.notes {
+				res.Notes = append(res.Notes, evalNote(n, m))
+			}
 			for k, c := range ex.chooses {
 				res.Witness["choose:"+k] = fmt.Sprint(c)
 			}
@@ -967,6 +972,73 @@ func (ex *Exec) runInitFn(fn *ssa.Function) interface{} {
 		return fmt.Sprintf("%v: %s", ex.outcome, ex.outMsg)
 	}
 	return nil
+}
+
+// evalNote renders a noted value under a model the way fmt.Sprint does natively.
+func evalNote(v Value, m map[string]*big.Int) (out string) {
+	defer func() {
+		if r := recover(); r != nil {
+			out = fmt.Sprintf("<unevaluable %v>", r)
+		}
+	}()
+	ev := func(t *sym.Term) *big.Int {
+		x, _ := sym.Eval(t, m)
+		return x
+	}
+	switch v := v.(type) {
+	case Iface:
+		if v.T == nil {
+			return "<nil>"
+		}
+		if ii, ok := intInfoOf(v.T); ok {
+			switch x := v.V.(type) {
+			case int64:
+				if ii.signed {
+					return fmt.Sprint(x)
+				}
+				return fmt.Sprint(uint64(x))
+			case *sym.Term:
+				u := ev(x).Uint64()
+				if ii.signed {
+					return fmt.Sprint(normInt(int64(u), ii))
+				}
+				return fmt.Sprint(u)
+			}
+		}
+		return evalNote(v.V, m)
+	case *Value:
+		if v == nil {
+			return "<nil>"
+		}
+		return evalNote(*v, m)
+	case BigVal:
+		return ev(v.Term()).String()
+	case string:
+		return v
+	case *Rope:
+		var sb strings.Builder
+		for _, s := range v.Segs {
+			switch {
+			case s.D != nil:
+				sb.WriteString(ev(s.D).String())
+			case s.B != nil:
+				sb.WriteByte(byte(ev(s.B).Uint64()))
+			default:
+				sb.WriteString(s.S)
+			}
+		}
+		return sb.String()
+	case bool:
+		return fmt.Sprint(v)
+	case *sym.Term:
+		if v.Sort == sym.SBool {
+			return fmt.Sprint(ev(v).Sign() != 0)
+		}
+		return ev(v).String()
+	case int64:
+		return fmt.Sprint(v)
+	}
+	return describe(v)
 }
 
 func sortedKeys(m map[string]int) []string {
